@@ -1,5 +1,6 @@
 #!/bin/bash
 # usage: tools/seedrecheck.sh <name> <property> "<what was strengthened>"  — re-run the property's quick check against a kept seeded change
+touch /tmp/.seedstart.$$
 name=$1; prop=$2; note=${3:-}
 d=/verif/seeded/$name
 git -C /repo apply $d/patch.diff || { echo "patch does not apply"; exit 9; }
@@ -21,4 +22,4 @@ if note: m['strengthened']=note
 json.dump(m,open(d+'meta.json','w'),indent=1)
 print(name,'caught=',m['check_caught'],'|',(m['check_reported'] or '')[:200])
 PY
-find /verif/replays -type f -mmin +600 -delete  # (keeps what a background sweep wrote)
+find /verif/replays -type f -newer /tmp/.seedstart.$$ -delete; rm -f /tmp/.seedstart.$$
